@@ -192,7 +192,14 @@ class time_zone {
   template <typename D>
   bool prev_transition(const time_point<D>& tp,
                        civil_transition* trans) const {
-    return prev_transition(detail::split_seconds(tp).first, trans);
+    // A transition at the whole second at or below tp is before tp
+    // whenever tp has a sub-second part.
+    const auto split = detail::split_seconds(tp);
+    if (split.second > D::zero() &&
+        split.first != time_point<seconds>::max()) {
+      return prev_transition(split.first + seconds(1), trans);
+    }
+    return prev_transition(split.first, trans);
   }
 
   // version() and description() provide additional information about the
